@@ -63,6 +63,13 @@ pub fn sources_ticket(contents : &Vec<String>) -> String
     ticket_of(&cat)
 }
 
+pub fn sources_ticket_bytes(contents : &Vec<Vec<u8>>) -> String
+{
+    let mut cat = vec![];
+    for c in contents { cat.extend_from_slice(&sha256(c)); }
+    ticket_of(&cat)
+}
+
 /*  the rule ticket ruler computes (Ticket::from_strings), re-implemented */
 pub fn rule_ticket(tg : &Vec<String>, src : &Vec<String>, cl : &Vec<String>) -> String
 {
